@@ -133,6 +133,15 @@ async def _battery_run(case: dict[str, Any], vec: list[str], out: dict[str, Any]
     status_ch = Broadcast(name="status")
     res_ch = Broadcast(name="results")
     res_rx = res_ch.new_receiver(limit=100)
+    status_rx = status_ch.new_receiver(limit=1000)
+    hist: list[dict[str, Any]] = []
+
+    async def _collect() -> None:
+        # (the tracker sends one mutable status object again and again: snapshot it on arrival)
+        async for st in status_rx:
+            hist.append({"t": asyncio.get_event_loop().time(), "working": sorted(st.working), "uncertain": sorted(st.uncertain)})
+
+    collector = asyncio.create_task(_collect())
     mgr = BatteryManager(status_ch.new_sender(), res_ch.new_sender(), timedelta(seconds=case.get("timeout", TIMEOUT)))
     await mgr.start()
 
@@ -171,6 +180,10 @@ async def _battery_run(case: dict[str, Any], vec: list[str], out: dict[str, Any]
             await asyncio.sleep(0.2)
             for iid in inv_ids:
                 api.outcome[iid] = "ok"
+    # what the manager told the pool-status channel (C16, manager tier)
+    await asyncio.sleep(0.05)
+    collector.cancel()
+    out["pool_status"] = hist
     await mgr.stop()
 
 
